@@ -64,6 +64,8 @@ def oracle(line, vals, obs):
             if c < len(completed):
                 fails.append(("count", "injected_items %d is smaller than the %d completed pushes" % (c, len(completed))))
             last_count = c
+    if obs and obs[-1].startswith("W") and obs[-1] != "W0":
+        fails.append(("torn", "while a fill callback was running a lookup returned an item whose columns were not (yet) what its fill produced (index:value %s): the item was published before it was completely written" % obs[-1][1:]))
     # gap-free: union of ranges is [0, max)
     ranges.sort()
     pos = 0
